@@ -19,14 +19,18 @@ SPEC = dict(
           "members are not real snapshots) on tar streams built with archive/tar: member names from a grammar of set-id "
           "prefixes x rests with `..`, `../`, absolute, nested, empty, `.`, `//`, trailing slash, names without `_`, random "
           "strings over `ab._/`; regular files, directories, symlinks, content.json / export.json, 1..6 members, a junk "
-          "header after k members (1/8); 22 fixed corner names first (8 of them escape when the `../` check is weakened). Observed: the paths handed to backendOpen (= files "
-          "written), success, and whether a digest of the whole root outside the snapshots directory is unchanged. "
+          "header after k members (1/8), duplicate targets (same name, or same rest under another old set id, other body; 1/4 per "
+          "member) and a pre-existing `<id>_old.zip`; 22 fixed corner names first (8 of them escape when the `../` check is weakened) "
+          "and 2 fixed duplicate streams. Observed: the paths handed to backendOpen (= files written) with the file content at "
+          "that moment, success, and whether a digest of the whole root outside the snapshots directory is unchanged. "
           "restore: the real backend.Open + Reader.Restore (+ RestoreState.Cleanup / Revert) with the system tar on "
           "generated snapshot zips with 1..3 entries (archive.tgz, user/u1.tgz, user/u2.tgz; userLookup pointed at temp "
           "homes, tar run directly): archives with/without common and the revision directory, extra top-level entries; "
           "pre-existing parent missing / with any of common, revision dirs, other dirs, a stale backup; current revision "
-          "unset / same / different; per entry corruption none / wrong recorded digest / gzip stream truncated at 0..95 %; "
-          "9 fixed cases (second of three entries corrupted). Observed: error, per parent the map name -> tree digest "
+          "unset / same / different; per entry corruption none / wrong recorded digest / gzip stream truncated at 0..95 % / member "
+          "missing from the zip / one byte of the stored member flipped (zip checksum error); Reader.Check is called first, with no "
+          "user list or one of {u1},{u2},{u1,u2},{nobody}; 15 fixed cases (second of three entries corrupted, each kind x each "
+          "follow-up). Observed: result of Check, error of Restore, per parent the map name -> tree digest "
           "after the call (+ after Cleanup or Revert). Non-trivial = a file written or a rejected stream (import); a "
           "corrupted entry, several entries or a later Revert (restore)."),
     exhaustive=dict(quick=False, thorough=False),
@@ -37,7 +41,7 @@ SPEC = dict(
         "backup names (restoreStateFilename, 9 random characters) modelled as fresh odd names, restoreState2orig as their inverse: the regular expression itself is not modelled",
         "the flat Created/Moved lists of RestoreState are modelled per parent directory (entries restore into pairwise distinct parents)",
     ],
-    assumptions=["PARTIAL: external tar, path.Clean, rename atomicity and the random backup names are modelled, not verified; the success half of the restore property (exactly the extracted trees, everything else untouched) is only monitored on the implementation (Snapshot.success_all), not proved; Reader.Check is exercised through Open/Restore only indirectly and has no theorem",
+    assumptions=["PARTIAL: external tar, path.Clean, the zip reader, rename atomicity and the random backup names are modelled, not verified (SHA3 idealised as content identity). Proved over the model: import inside (with contents and duplicates), restore failure/Revert identity, restore success (exact content of every name, C32_restore_success; the monitor predicate success_all is a corollary), mismatch before move, Check iff",
                  "failure of the second rename inside moveFile cannot be provoked on the real file system as root: covered by the theorem (every failure point), not by the tie",
                  "two entries never share a parent directory (distinct users have distinct homes)",
                  "import: pre-existing symbolic links inside the snapshots directory are outside the model (import itself never creates links or directories)"],
